@@ -181,8 +181,13 @@ def run_cycles(fm0, writer, reader, sc, ext, n, pid, binary=False):
     out = []
     texts, models, obss = [], [], []
     cur = fm0
+    path = sc.path(f"model.{ext}")
+    # a decoy model is written and read at the very same path first: a reader or writer that remembers what it
+    # did for a path (or a file left open) would hand the decoy back in cycle 1
+    decoy = build.build({"root": build.feat("Decoy", [build.rel(0, 1, [build.feat("DecoyChild")])]), "ctcs": []})
+    if not isinstance(lib(writer, path, decoy), Raised):
+        lib(reader, path)
     for k in range(1, n + 1):
-        path = sc.path(f"cycle{k}.{ext}")
         ret = lib(writer, path, cur)
         if isinstance(ret, Raised):
             out.append((f"{pid}.writer-raised:{ret.label}", f"cycle {k}: {ret.text}"))
